@@ -42,10 +42,11 @@ pub struct Atomic<'a, ItemType:          Send + Sync + Debug,
 
     /// common code for dealing with streams
     streams_manager:     StreamsManagerBase<MAX_STREAMS>,
+    /// management for dispatching the events -- elements in the container are `slot_id`s in the `allocator`
+    /// (declared before `allocator`, as fields are dropped in declaration order: buffered events are released back into `allocator` when dropped)
+    dispatcher_managers: [AtomicMove<OgreArc<ItemType, OgreAllocatorType>, BUFFER_SIZE>; MAX_STREAMS],
     /// backing storage for events
     allocator:           OgreAllocatorType,
-    /// management for dispatching the events -- elements in the container are `slot_id`s in the `allocator`
-    dispatcher_managers: [AtomicMove<OgreArc<ItemType, OgreAllocatorType>, BUFFER_SIZE>; MAX_STREAMS],
     _phanrom: PhantomData<&'a ItemType>,
 
 }
